@@ -229,7 +229,7 @@ example : addSievingPrime 30 8 Gen.wheel30Init 1000 7 0 = some ⟨0, 1, 1⟩ ∧
     them — harmless or not — breaks this obligation; the check then searches for a failing input
     with the correspondence streams (DESIGN.md section 2, step 5). -/
 theorem C01_model_sources :
-    Gen.modelSources.filter (fun e => e.1 ∈ ["iterator.generate_next_primes", "iterator.hpp.next_prime", "IteratorHelper.updateNext", "IteratorHelper.getNextDist", "PrimeGenerator.initErat", "PrimeGenerator.sieveNextPrimes", "PrimeGenerator.sieveSegment", "Erat.init", "Erat.initAlgorithms", "Erat.preSieve", "PreSieve.preSieve"]) =
+    Gen.modelSources.filter (fun e => e.1 ∈ ["iterator.generate_next_primes", "iterator.hpp.next_prime", "IteratorHelper.updateNext", "IteratorHelper.getNextDist", "PrimeGenerator.initErat", "PrimeGenerator.sieveNextPrimes", "PrimeGenerator.sieveSegment", "PrimeGenerator_default.fillNextPrimes", "PrimeGenerator_avx512.fillNextPrimes", "Erat.init", "Erat.initAlgorithms", "Erat.preSieve", "PreSieve.preSieve"]) =
      [("iterator.generate_next_primes", "2a13a14724829f92f5fe"),
       ("iterator.hpp.next_prime", "3ef2a1a42a787f93e2be"),
       ("IteratorHelper.updateNext", "4131a8a58e0e755d4fb9"),
@@ -237,6 +237,8 @@ theorem C01_model_sources :
       ("PrimeGenerator.initErat", "e9abf2b828768ab0d322"),
       ("PrimeGenerator.sieveNextPrimes", "ebee29abba9b6db6af30"),
       ("PrimeGenerator.sieveSegment", "3639ea2a437c015b1ea1"),
+      ("PrimeGenerator_default.fillNextPrimes", "0a69dc0049d71ebe96df"),
+      ("PrimeGenerator_avx512.fillNextPrimes", "7df9e1d9dff83718d8d2"),
       ("Erat.init", "6050ef3bf0435ee43aae"),
       ("Erat.initAlgorithms", "f1a7ebe09c59958b8c39"),
       ("Erat.preSieve", "7341fc248d9a958b47cf"),
